@@ -1010,7 +1010,7 @@ theorem validate_accepts (o : Opts) :
 /-- `NewDeque` never leaves the tracker nil, and a new deque is empty, open, and satisfies the
     representation invariant -/
 theorem newDeque_ok (o : Opts) : newDeque o ≠ some none ∧
-    ∀ st, newDeque o = some (some st) → Inv st ∧ st.q = [] ∧ st.closed = false ∧ st.stale = [] ∧ st.cursors = [] ∧ st.nextId = 1 := by
+    ∀ st, newDeque o = some (some st) → Inv st ∧ st.q = [] ∧ st.closed = false ∧ st.stale = [] ∧ st.cursors = [] ∧ st.nextId = 1 ∧ st.vals = [] := by
   unfold newDeque
   cases hv : o.validate with
   | none => simp
@@ -1037,7 +1037,7 @@ theorem newDeque_ok (o : Opts) : newDeque o ≠ some none ∧
             refine ⟨by simp, ?_⟩
             intro st hst
             simp only [Option.some.injEq] at hst; subst hst
-            refine ⟨⟨rfl, ?_⟩, rfl, rfl, rfl, rfl, rfl⟩
+            refine ⟨⟨rfl, ?_⟩, rfl, rfl, rfl, rfl, rfl, rfl⟩
             simp only [Tracker.WF]; omega
     | none =>
       rw [hq] at hv
@@ -1051,7 +1051,7 @@ theorem newDeque_ok (o : Opts) : newDeque o ≠ some none ∧
         refine ⟨by simp, ?_⟩
         intro st hst
         simp only [Option.some.injEq] at hst; subst hst
-        exact ⟨⟨rfl, trivial⟩, rfl, rfl, rfl, rfl, rfl⟩
+        exact ⟨⟨rfl, trivial⟩, rfl, rfl, rfl, rfl, rfl, rfl⟩
       · simp only [h1, Bool.false_eq_true, ite_false] at hv
         cases hu : o.unlimited with
         | true => simp [hu] at hv
@@ -1064,7 +1064,7 @@ theorem newDeque_ok (o : Opts) : newDeque o ≠ some none ∧
           refine ⟨by simp, ?_⟩
           intro st hst
           simp only [Option.some.injEq] at hst; subst hst
-          refine ⟨⟨rfl, ?_⟩, rfl, rfl, rfl, rfl, rfl⟩
+          refine ⟨⟨rfl, ?_⟩, rfl, rfl, rfl, rfl, rfl, rfl⟩
           simp only [Tracker.WF]; omega
 
 end FunModel.Deque
